@@ -244,6 +244,9 @@ func (k kase) class(w *world) string {
 	if k.Menu == "state" {
 		return fmt.Sprintf("%s|state|%s|%s", k.Scenario.Proto, k.Path, k.Op)
 	}
+	if k.Menu == "coordinated" {
+		return fmt.Sprintf("%s|coordinated|%s|%s", k.Scenario.Proto, k.Path, k.Op)
+	}
 	kind := "p2p"
 	if k.Slot.Broadcast {
 		kind = "bcast"
